@@ -16,18 +16,18 @@ LEVEL_TEXT = ('static analysis: (D1) the edge arithmetic of skgenome.subtract._s
               ' value reaching it is shown (reaching definitions + resolved callees) to come out of merge(), inside subtract() or at every call '
               'site; (D1b) subtract() interpreted on 655 literal table pairs (overlapping / nested / unsorted / abutting subtrahends, chromosomes'
               " missing on either side) with merge() summarised by its contract: every row minus the union of the other table's rows on its "
-              'chromosome, in order; (D2) every call of a combiner taken from the `combine` mapping passes an array kind (Series/ndarray), which '
-              "the default combiners require (join_strings -> pd.unique); (D3) merge()'s fast path and _nonoverlapping_groups() compare the same "
-              'quantity -- next start minus running maximum (cummax) of the ends -- with the same operator against -bp, extracted by abstract '
-              "interpretation as a canonical comparison atom, and flatten()'s fast path tests the same quantity against 0; (D3b) merge() and "
-              'flatten() interpreted on every literal table of 1-3 rows over a 4-point grid and two chromosomes (rows in any order, bp 0 and 2): '
-              'a table returned unchanged has no two rows of one chromosome left to merge / flatten; (D4) resize_ranges stores start=max(start-'
-              "bp,0), end=max(end+bp,0), both min'ed with the chromosome size when sizes are given (on a table whose index is not 0..n-1: a bound"
-              ' carried by a fresh-index Series is a label misalignment), and keeps exactly the rows with end-start>0 when shrinking, on a copy; '
-              '(D5) _split_targets, interpreted with a symbolic start and spans giving 1..6 bins: first piece starts at row.start, every piece '
-              'begins where the previous ended, last ends at row.end, piece count is int(round(span/avg)) or 1, regions shorter than min_size are'
-              ' skipped (>=). Does not decide that merge/flatten/intersection outputs cover exactly the union/intersection for arbitrary tables '
-              '(algorithmic).')
+              'chromosome, in order, and chromosomes are paired exactly (C07-D6 rule); (D2) every call of a combiner taken from the `combine` '
+              "mapping passes an array kind (Series/ndarray), which the default combiners require (join_strings -> pd.unique); (D3) merge()'s "
+              'fast path and _nonoverlapping_groups() compare the same quantity -- next start minus running maximum (cummax) of the ends -- with '
+              "the same operator against -bp, extracted by abstract interpretation as a canonical comparison atom, and flatten()'s fast path "
+              'tests the same quantity against 0; (D3b) merge() and flatten() interpreted on every literal table of 1-3 rows over a 4-point grid '
+              'and two chromosomes (rows in any order, bp 0 and 2): a table returned unchanged has no two rows of one chromosome left to merge / '
+              "flatten; (D4) resize_ranges stores start=max(start-bp,0), end=max(end+bp,0), both min'ed with the chromosome size when sizes are "
+              'given (on a table whose index is not 0..n-1: a bound carried by a fresh-index Series is a label misalignment), and keeps exactly '
+              'the rows with end-start>0 when shrinking, on a copy; (D5) _split_targets, interpreted with a symbolic start and spans giving 1..6 '
+              'bins: first piece starts at row.start, every piece begins where the previous ended, last ends at row.end, piece count is '
+              'int(round(span/avg)) or 1, regions shorter than min_size are skipped (>=). Does not decide that merge/flatten/intersection outputs'
+              ' cover exactly the union/intersection for arbitrary tables (algorithmic).')
 TECHNIQUE = "reaching-definition / resolved-callee precondition rule; argument-kind agreement at a function-pointer slot; abstract interpretation (comparison atoms, symbolic coordinates)"
 
 SUB = "skgenome.subtract.subtract"
@@ -613,6 +613,8 @@ def run(chk):
     chk.assume("exact arithmetic over the rationals")
     d1(chk, prog)
     d1b(chk, prog)
+    from . import C07
+    C07.d6(chk, prog)            # subtraction / intersection are per chromosome: the pairing of by_shared_chroms (C07-D6 rule)
     d2(chk, prog)
     d3b(chk, prog)
     d3(chk, prog)
